@@ -147,7 +147,9 @@ impl Identifier {
     # every other hand-written accessor of node_ext.rs / expr_ext.rs / type_ext.rs: not verified (token-level iterator chains, string
     # slicing); SEMA sees them as opaque accessors.  Their text is pinned, so that a change is "no verdict", never a silent pass.
     U.n_pinned = 0
-    for fc in (n, e, tf):
+    # token_ext.rs: the values of integer / float / bit-string literal tokens (IntNumber::value feeds every width and register length: C09)
+    tke = U.file('crates/oq3_syntax/src/ast/token_ext.rs')
+    for fc in (n, e, tf, tke):
         U.n_pinned += fc.guard_rest('hand-written AST accessor outside the verified set: opaque to the analyser model; text pinned')
     U.assumed_parser = ['IF_STMT children: condition expression (not a block), then-body, optional else-body (if_shape)',
                         'WHILE_STMT children: condition expression (not a block), body (while_shape)',
